@@ -76,10 +76,7 @@ Proof. vm_compute. reflexivity. Qed.
 Theorem inline_rt_refuted : exists d data,
   dict_get2 d k_L k_Length = None /\
   cscan cstd_limits (op_format (image_op d data)) <> Some [image_op (scanned_dict d) data].
-Proof.
-  exists f9_dict, f9_data. destruct inline_rt_refuted_lemma as (H1 & _ & H3).
-  split; [exact H1|]. rewrite H3. discriminate.
-Qed.
+Proof. exact inline_rt_refuted_stmt. Qed.
 Print Assumptions inline_rt_refuted.
 
 (* the two other inline-image findings, as instances *)
